@@ -956,7 +956,7 @@ Fixpoint segment_iat (l : list iat_batch) (cf df : file) : R (file * file) :=
       h <- ih_of b ;;                                           (* IATBh.ServiceClassCode *)
       r <- (match ih_scc h with
             | Mixed =>
-                (* createSegmentFileIATBatchHeader copies the SEC code and (since 5c8b3604) the IATIndicator *)
+                (* createSegmentFileIATBatchHeader copies the SEC code and (since 27bda8a6) the IATIndicator *)
                 r <- split_iat_entries (ib_entries b) (new_iat_batch (mkih Credits (ih_cor h))) (new_iat_batch (mkih Debits (ih_cor h))) ;;
                 cf' <- iat_create_and_add (fst r) cf ;;
                 df' <- iat_create_and_add (snd r) df ;;
